@@ -359,9 +359,10 @@ int mcrt_create_thread(pthread_t *out, const pthread_attr_t *attr, void *(*fn)(v
 
 int mcrt_find_thread(pthread_t th)
 {
-    int i;
-    for (i = 0; i < nthreads; i++) if (T[i].used && pthread_equal(T[i].real, th)) return i;
-    return -1;
+    int i, stale = -1;
+    /* glibc reuses the pthread_t of a joined thread for a later one: the ID names the newest thread that carries it and whose lifetime has not ended */
+    for (i = nthreads - 1; i >= 0; i--) if (T[i].used && pthread_equal(T[i].real, th)) { if (!T[i].joined) return i; if (stale < 0) stale = i; }
+    return stale;
 }
 
 void mcrt_join_thread(int id, void **ret)
